@@ -8,3 +8,4 @@ import BlackIt.Model.Bandit
 import BlackIt.Model.Halton
 import BlackIt.Model.Calibrator
 import BlackIt.Drv.Cal
+import BlackIt.Model.Checkpoint
